@@ -64,8 +64,6 @@ Local Notation mk le lv vx vkeys verr vkey vvalid evs :=
      fields := flds; lists := lsts; events := evs; inputs := inps |}.
 
 (* the inner loop: for _, key := range keys *)
-Definition goes_on (c : ctl) : Prop := c = Next \/ c = Cont.     (* both mean: on to the next element *)
-
 Lemma keys_loop_src (F : state -> state * ctl) le vx vkeys cF cE : goes_on cF -> goes_on cE ->
   (forall k lv verr vvalid evs,
      F (mk le (VZ lv) vx vkeys verr (VS k) vvalid evs) =
